@@ -130,5 +130,12 @@ def unit_pyunicode():
     dec = [(cp, int(chr(cp))) for cp in cps(str.isdecimal)]
     out.append(f"/-- code points with `str.isdecimal()` and their digit values (accepted by `int()`) -/\ndef decimalCps : List Nat :=\n  {lean_nat_list([c for c, _ in dec])}\n")
     out.append(f"def decimalVals : List Nat :=\n  {lean_nat_list([v for _, v in dec])}\n")
+    def int_strips(cp):
+        try:
+            return int(chr(cp) + "7" + chr(cp)) == 7
+        except ValueError:
+            return False
+
+    out.append(f"/-- code points that `int()` strips as surrounding whitespace -/\ndef intSpace : List Nat :=\n  {lean_nat_list([cp for cp in range(0x110000) if not (0xD800 <= cp <= 0xDFFF) and int_strips(cp)])}\n")
     out.append("end Gen.PyUnicode\n")
     return "\n".join(out)
